@@ -159,21 +159,25 @@ def r0Put (sd : List Row) (col row : Int) (cell : Cell) : Res (List Row) :=
     | none => .panic
     | some rw => .ok (sd.set (row.toNat - 1) { rw with cells := setCellAt rw.cells (col.toNat - 1) cell true })
 
-/-- `checkSheetR0(…, r0 = true)` for one r0 row -/
-def r0Cells (rowNo : Nat) : Nat → List Cell → List Row → Res (List Row)
+/-- `checkSheetR0(…, r0 = true)` for one r0 row: a cell with a reference goes where it says, a cell
+without one follows the cell before it (`prevCol + 1`) -/
+def r0Cells (rowNo : Nat) : Int → List Cell → List Row → Res (List Row)
   | _, [], sd => .ok sd
-  | i, c :: cs, sd =>
-    if c.ref == [] then (r0Put sd (i + 1) rowNo c).bind (r0Cells rowNo (i + 1) cs)
+  | prev, c :: cs, sd =>
+    if c.ref == [] then (r0Put sd (prev + 1) rowNo c).bind (r0Cells rowNo (prev + 1) cs)
     else match cellNameToCoordinates c.ref with
-      | .ok (col, row) => (r0Put sd col row c).bind (r0Cells rowNo (i + 1) cs)
-      | .error _ => r0Cells rowNo (i + 1) cs sd
+      | .ok (col, row) => (r0Put sd col row c).bind (r0Cells rowNo col cs)
+      | .error _ => r0Cells rowNo prev cs sd
 
 def r0Rows : List Row → List Row → Res (List Row)
   | [], sd => .ok sd
   | z :: zs, sd =>
     match sd[z.r - 1]? with
     | none => .panic
-    | some rw => (r0Cells z.r 0 z.cells (sd.set (z.r - 1) { rw with r := z.r })).bind (r0Rows zs)
+    | some rw =>
+      -- the row keeps its attributes unless its place is taken by a numbered row
+      let slot : Row := if rw.cells.isEmpty && !hasAttr rw.attrs then { z with cells := rw.cells } else rw
+      (r0Cells z.r 0 z.cells (sd.set (z.r - 1) { slot with r := z.r })).bind (r0Rows zs)
 
 /-- last loop: `sheetData.Row[i-1].R = i` for `i ≤ row` (`checkSheetR0(…, false)` changes nothing) -/
 def setNumbers (n : Nat) (sd : List Row) : List Row :=
